@@ -62,6 +62,7 @@ def case_gen(draw, files=False):
     if files:
         case['repeat'] = draw(st.sampled_from([1, 50, 3000]))
         case['longfield'] = draw(st.sampled_from([0, 0, 70000, 140000]))
+        case['fmode'] = draw(st.sampled_from(['plain', 'rewrite', 'inside']))
     return case
 
 
@@ -158,12 +159,36 @@ def check_files(case):
     d = tempfile.mkdtemp(prefix='rxsci_c18_')
     try:
         f = os.path.join(d, 'x.csv')
-        w = drive.collect(rx.from_(rows).pipe(csv.dump_to_file(f, header=True, separator=case['sep'], escapechar=case['esc'], encoding='utf-8')))
-        H.require_clean(w, 'dump_to_file', **ctx)
+        parser = csv.create_line_parser(dtype=dtype, separator=case['sep'], escapechar=case['esc'])
+        mode = case.get('fmode', 'plain')
+        if mode == 'rewrite':
+            # the path already holds an earlier export (other rows, same options): dump_to_file replaces it, header included
+            w0 = drive.collect(rx.from_(rows[:3] + rows[:2]).pipe(csv.dump_to_file(f, header=True, separator=case['sep'], escapechar=case['esc'], encoding='utf-8')))
+            H.require_clean(w0, 'earlier dump_to_file to the same path', **ctx)
+        if mode == 'inside':
+            # a live source; the file is read back from INSIDE the completion callback of the dump: completion means written
+            from rx.subject import Subject
+            src, inside, w = Subject(), [], drive.Result()
+
+            def done():
+                w.completed += 1
+                inside.append(drive.collect(csv.load_from_file(f, parser, encoding='utf-8')) if os.path.exists(f) else None)
+            src.pipe(csv.dump_to_file(f, header=True, separator=case['sep'], escapechar=case['esc'], encoding='utf-8')).subscribe(
+                on_next=w.items.append, on_error=lambda e: setattr(w, 'error', e), on_completed=done)
+            for row in rows:
+                src.on_next(row)
+            src.on_completed()
+            H.require_clean(w, 'dump_to_file (live source)', **ctx)
+            if inside[0] is None:
+                raise Violation('csv.dump_to_file signalled completion before the file existed', **ctx)
+            H.require_clean(inside[0], 'load_from_file called from the completion callback of dump_to_file', **ctx)
+            compare(case, plain_rows, inside[0].items, ctx)
+        else:
+            w = drive.collect(rx.from_(rows).pipe(csv.dump_to_file(f, header=True, separator=case['sep'], escapechar=case['esc'], encoding='utf-8')))
+            H.require_clean(w, 'dump_to_file', **ctx)
         if not os.path.exists(f):
             raise Violation('csv.dump_to_file completed without creating the file', **ctx)
         size = os.path.getsize(f)
-        parser = csv.create_line_parser(dtype=dtype, separator=case['sep'], escapechar=case['esc'])
         r = drive.collect(csv.load_from_file(f, parser, encoding='utf-8'))
         H.require_clean(r, 'load_from_file', **ctx)
         compare(case, plain_rows, r.items, ctx)
@@ -171,6 +196,7 @@ def check_files(case):
         shutil.rmtree(d, ignore_errors=True)
     i = info(case)
     i['labels'].append('file>64K' if size > 65536 else 'file<=64K')
+    i['labels'].append('fmode:' + case.get('fmode', 'plain'))
     i['nontrivial'] = i['nontrivial'] or size > 65536
     return i
 
